@@ -257,6 +257,12 @@ class _PerParticle:
         return self.what
 
 
+class _TemplateList(_PerParticle):
+    """a Python list with one template per particle: input_object[i] for the loop's own index is that particle's template"""
+    def __sym_isinstance__(self, ts):
+        return any(t is list for t in ts)
+
+
 class _MotlModel:
     """assumed contracts of Motl.get_coordinates (x + shift, C05/C09), Motl.get_rotations (the particle's zxz orientation, same convention as
     shift_positions) and column access, restricted to what place_object uses"""
@@ -292,6 +298,10 @@ class PlaceObject(Contract):
     prop = "C14"
     module = "cryomap"
     qual = "place_object"
+    configs = [{"templates": "single"}, {"templates": "list"}]
+
+    def cfg_name(self, cfg):
+        return "one template" if cfg["templates"] == "single" else "list of templates (one per particle)"
 
     def bind(self, cx, cfg):
         calls = []
@@ -310,7 +320,8 @@ class PlaceObject(Contract):
         templ = voxels.input_array("template", list(ts))
         motl = _MotlModel(cx)
         f = it.function("place_object")
-        return (lambda: f(templ, motl, volume=box, feature_to_color="geom3")), {"box": box, "size": size, "templ": templ, "ts": ts, "motl": motl, "calls": calls, "orig": box.elem.t}
+        arg = templ if cfg["templates"] == "single" else _TemplateList(motl, templ)
+        return (lambda: f(arg, motl, volume=box, feature_to_color="geom3")), {"box": box, "size": size, "templ": templ, "ts": ts, "motl": motl, "calls": calls, "orig": box.elem.t}
 
     def post(self, cx, cfg, inp, res):
         box, size, ts, motl, calls = inp["box"], inp["size"], inp["ts"], inp["motl"], inp["calls"]
